@@ -128,6 +128,44 @@ def rule_addskel(ctx, rep, rid):
     pat.require(allowed and loop_entry, "_cds_lfht_add: walk skeleton")
     rep.must_take_edge(rid, "add.insertion-point", f, loop_entry[:1], [ins.inst], sorted(allowed), include_start=False,
                        what="the walk reaches the insertion only through: end of list | first larger reverse hash | equal hash while linking a bucket node | duplicate search empty")
+    # (1b) the other direction: while a *bucket* node is being linked the walk never steps past a node of equal reverse hash - the bucket
+    # node must come first among equals, lookups for that hash start right behind it.  Every way from the top of an iteration to the
+    # advance (predecessor := clear_flag(iter)) either knows bucket_flag == 0 or has seen reverse_hash(iter) != reverse_hash(node).
+    pcx = ins.ap["base"]
+    if pcx[0] == "i" and f.insts[pcx[1]].op == "phi":
+        ph = f.insts[pcx[1]]
+        advs = [blk for v, blk in ph.d["inc"] if (lambda x: x[0] == "bin" and x[1] == "and" and x[3] == ("c", -8))(ir.expr(f, v, 4))]
+        E = set()
+        merged = False
+        for b in f.blocks:
+            for s_ in b.succ:
+                for a in ir.edge_atoms(f, b.id, s_):
+                    if len(a) != 3:
+                        continue
+                    if a[0] == "eq" and a[1] == ("arg", 7) and a[2] == ("c", 0):
+                        E.add((b.id, s_))
+                    elif a[0] in ("ne", "ult", "ugt") and ((rh_iter(a[1]) and rh_node(a[2])) or (rh_node(a[1]) and rh_iter(a[2]))):
+                        if a[0] == "ne" or (a[0] == "ult" and rh_iter(a[1])) or (a[0] == "ugt" and rh_node(a[1])):
+                            E.add((b.id, s_))
+                    elif a[0] == "eq" and a[2] == ("c", 0) and a[1][0] == "select":
+                        # !(c1 && c2 && ...): an E edge when every conjunct is `bucket_flag != 0` or `equal reverse hash` (then the negation
+                        # says: not a bucket insertion, or a different hash); a further conjunct (some other property of iter) leaves a
+                        # way past an equal-hash node open
+                        lv2 = []
+                        pat.leaf_atoms(("icmp", "ne", a[1], ("c", 0)), True, lv2)
+                        is_bf = lambda x: x[0] == "ne" and x[1] == ("arg", 7) and x[2] == ("c", 0)
+                        is_eq = lambda x: x[0] == "eq" and len(x) == 3 and ((rh_iter(x[1]) and rh_node(x[2])) or (rh_node(x[1]) and rh_iter(x[2])))
+                        if lv2 and any(is_eq(x) for x in lv2) and all(is_bf(x) or is_eq(x) for x in lv2):
+                            E.add((b.id, s_))
+        if advs and not merged:
+            hdr = f.blocks[ph.blk.id].insts[0]
+            tg = [f.blocks[b_].insts[-1] for b_ in advs]
+            hit, par = f.reach([hdr], tg, edge_ok=pat.block_edge_filter(E), include_start=True)
+            rep.check(hit is None, rid, "add.bucket-first-among-equals", "linking a bucket node, the walk advances past a node only after seeing a different reverse hash",
+                      "with bucket_flag set the walk can step past a node whose reverse hash equals the new bucket node's: the bucket node is linked *behind* a resident node of that hash, "
+                      "and every lookup / add_unique / replace for it - which start at the bucket node - no longer finds the node", [hit.where()] if hit is not None else [])
+        elif advs:
+            rep.unk(rid, "add.bucket-first-among-equals", "the equal-hash test is merged into a select this rule does not decompose")
     # (4) unique_ret
     ur = [s for s in f.all_insts() if s.op == "store" and s.d["ap"] and s.d["ap"]["base"] == ["a", 6] and pat.last_field(s.d["ap"]) == "cds_lfht_iter.node"]
     own = [s for s in ur if ir.expr(f, s.args[0], 3) == ("arg", 5)]
